@@ -889,6 +889,14 @@ def _evaluate(ctx: Ctx, cases: List[Tuple[str, Dict[str, Any]]], correspond: boo
         for sig, desc in r["verdicts"]:
             if not any(f.signature == sig for f in ctx.failures):
                 small = _minimise(case, sig)
+                try:  # human-readable position of the preemption points (informative; the indices replay)
+                    info = run_case(small)["yield_info"]
+                    small = dict(small, where=[
+                        f"thread {t} hands over before {info[t][k][0]}:{info[t][k][1]}"
+                        for t in ("L", "W") for k in small["switch" + t] if k < len(info[t])
+                    ])
+                except Exception:  # noqa: BLE001
+                    pass
                 ctx.fail(sig, desc + f" [stream {stream}; char {case['char']}; loop program {case['loop']}; "
                          f"worker {case['worker']}; preemption points L{small['switchL']} W{small['switchW']} "
                          f"({small['gran']} granularity)]", small)
